@@ -33,7 +33,10 @@ def d_src(v):
            "// TM is a test helper.", "// @testonly",
            ("func (s *S) TM(n int) int { return n }" if v["ptrmeth"] else "func (s S) TM(n int) int { return n }"), "",
            "// PF is restricted."] + al + ["func PF(n int) int { return n }", "",
-           "// PM is restricted."] + al + [("func (s *S) PM(n int) int { return n }" if v["ptrmeth"] else "func (s S) PM(n int) int { return n }"), ""]
+           "// PM is restricted."] + al + [("func (s *S) PM(n int) int { return n }" if v["ptrmeth"] else "func (s S) PM(n int) int { return n }"), "",
+           "// hidden is an unexported immutable type that leaks through an exported function.", "// @immutable", "type hidden struct{ X int }", "",
+           "// Hidden hands out a hidden.", "func Hidden() *hidden { return &hidden{} }", "",
+           "// Probe is a test helper on the unexported type.", "// @testonly", "func (h *hidden) Probe(n int) int { return n }", ""]
     return "\n".join(ls) + "\n"
 
 
@@ -60,6 +63,8 @@ def use_lines(v, pkg, base):
         (None if allowed(v, pkg) else "PKGO01", "\t_ = d.PT{X: %d}" % (base + 12)),
         (None if allowed(v, pkg) else "PKGO02", "\t_ = d.PF(%d)" % (base + 13)),
         (None if allowed(v, pkg) else "PKGO03", "\t_ = %s.PM(%d)" % (s, base + 14)),
+        ("IMM01", "\td.Hidden().X = %d" % (base + 15)),
+        ("TONL03", "\t_ = d.Hidden().Probe(%d)" % (base + 16)),
     ]
     return out
 
